@@ -15,6 +15,9 @@
 //   state: Map (per call), nhit/layer  |                                             | of graphs in a row (per-process state would show)
 //   scratch fields in MapNode          |                                             |
 //  Graph.Reverse (twice)               | dangling names become nodes; lists sorted   | every case (r2)
+//  ONE *Graph across calls, Nodes      | Reverse / RevLayout / Reverse.Reverse, then | ops "gseq" [new]: R T V with a (add edge) d (drop
+//   edited by the caller in between    | the caller edits g.Nodes or the graph that  | edge) n (add node) E (scribble on the returned
+//   (state: only Nodes, per Graph)     | Reverse returned, then the calls again      | graph) in between; every result against the CURRENT content
 //  Graph.Remove(node)                  | node, non-node name, dangling name          | ops (every general-family graph <= 40 nodes) [new]
 //  Graph.SubGraph(f)                   | f: accepts none / some / all / names that   | ops [new]; f is a pure set test; calls counted
 //                                      | are no nodes                                |
@@ -112,6 +115,7 @@ type OpsIn struct {
 	Inj     bool  `json:"inj"`           // Ren is injective
 	Clo     []int `json:"clo"`           // Closure(m, names of these ids)
 	AisOf   int   `json:"aisof"`         // AllInsSorted of this key position
+	GSeq    string `json:"gseq,omitempty"` // calls on ONE *Graph whose Nodes the caller edits in between: R Reverse, T Reverse.Reverse, V RevLayout, a add an edge, d drop an edge, n add a node, E edit the graph Reverse returned
 	Seq     string `json:"seq,omitempty"` // calls on ONE Map object: N NewMap | Y Layout | V RevLayout (first), then R Map.Reverse, L LayoutMap, S SortedLayers
 }
 
@@ -132,6 +136,16 @@ type GObs struct {
 	Nl bool    `json:"nil,omitempty"`
 }
 
+// GStep is one step of a sequence on one *Graph, with the graph's content at that moment.
+type GStep struct {
+	Op   string  `json:"op"`
+	Cur  []Entry `json:"cur"`            // g.Nodes as the caller holds it now
+	Got  []Entry `json:"got,omitempty"`  // R, T: the graph that came back
+	V    string  `json:"v,omitempty"`    // V: ok | missing | circle | other
+	Bad  string  `json:"bad,omitempty"`  // V: what is wrong with the layout w.r.t. the CURRENT content
+	Same bool    `json:"same"`           // the call left g.Nodes as it was
+}
+
 type OpsObs struct {
 	Rm      *GObs     `json:"rm"`
 	Sub     *GObs     `json:"sub"`
@@ -147,6 +161,7 @@ type OpsObs struct {
 	ReSets  bool      `json:"resets"`            // the node sets survived the second layout
 	JSONBad string    `json:"jsonbad,omitempty"` // LayoutJSON differs from the view
 	Seq     []SeqObs  `json:"seq,omitempty"`     // the call sequence on one Map object
+	GSeq    []GStep   `json:"gseq,omitempty"`    // the call sequence on one *Graph
 }
 
 type Case struct {
@@ -338,6 +353,9 @@ func corpus() []Case {
 	}
 	diamond := func() Case {
 		return general("corpus-ops", []string{"a", "b", "c", "d", "e"}, [][]int{{1, 3}, {2}, {3}, {}, {}})
+	}
+	for _, gq := range []string{"RaR", "VaV", "RaT", "REV", "RER", "VdVnV"} {
+		cs = append(cs, withOps(diamond(), OpsIn{Rm: 1, Sub: []int{0, 2, 3}, Ren: []int{4, 3, 2, 1, 0}, RenErr: -1, Inj: true, Clo: []int{0, 3}, AisOf: 3, GSeq: gq}))
 	}
 	for _, sq := range []string{"NRL", "YRL", "VL", "NLRLRL", "VRLS"} {
 		cs = append(cs, withOps(diamond(), OpsIn{Rm: 1, Sub: []int{0, 2, 3}, Ren: []int{4, 3, 2, 1, 0}, RenErr: -1, Inj: true, Clo: []int{0, 3}, AisOf: 3, Seq: sq}))
@@ -929,7 +947,113 @@ func graphOps(c *Case, nodes map[string][]string, uni []string, idx map[string]i
 		}
 	}()
 	oo.InSame = sameNodes(orig, nodes)
+	if in.GSeq != "" {
+		oo.GSeq = runGSeq(in.GSeq, copyNodes(orig), uni, idx)
+	}
 	return oo
+}
+
+// runGSeq: ONE *Graph for the whole sequence; the caller edits the map it
+// gave to NewGraph between the calls.  Every result is recorded next to the
+// content the map has at that moment.
+func runGSeq(seq string, nodes map[string][]string, uni []string, idx map[string]int) (out []GStep) {
+	defer func() {
+		if e := recover(); e != nil {
+			out = append(out, GStep{Op: "!", Bad: fmt.Sprintf("panic: %v", e)})
+		}
+	}()
+	g := dags.NewGraph(nodes)
+	cur := func() []Entry { return entriesOf(&dags.Graph{Nodes: nodes}, idx) }
+	keys := func() []string {
+		var ks []string
+		for k := range nodes {
+			ks = append(ks, k)
+		}
+		sort.Strings(ks)
+		return ks
+	}
+	var last *dags.Graph
+	for n, op := range seq {
+		before := copyNodes(nodes)
+		st := GStep{Op: string(op)}
+		ks := keys()
+		switch op {
+		case 'R':
+			last = g.Reverse()
+			st.Got = entriesOf(last, idx)
+		case 'T':
+			st.Got = entriesOf(g.Reverse().Reverse(), idx)
+		case 'V':
+			_, v, err := dags.RevLayout(g)
+			st.V, _ = classify(err, idx)
+			if err == nil {
+				seen := map[[2]int]bool{}
+				for k, nv := range v.Nodes {
+					if nv.X < 0 || nv.X >= v.Width || nv.Y < 0 || nv.Y >= v.Height {
+						st.Bad = "bounds of " + k
+					}
+					if seen[[2]int{nv.X, nv.Y}] {
+						st.Bad = "two nodes at the coordinate of " + k
+					}
+					seen[[2]int{nv.X, nv.Y}] = true
+				}
+				names := map[string]bool{} // the reverse has the dangling targets as nodes too
+				for k, l := range nodes {
+					names[k] = true
+					for _, t := range l {
+						names[t] = true
+					}
+				}
+				if len(v.Nodes) != len(names) {
+					st.Bad = "node count"
+				}
+				for k, l := range nodes {
+					for _, t := range l {
+						if v.Nodes[k] == nil || v.Nodes[t] == nil || !(v.Nodes[k].X < v.Nodes[t].X) {
+							st.Bad = "edge " + k + "->" + t + " of the current graph is not left to right"
+						}
+					}
+				}
+			}
+		case 'a': // add an edge between two nodes (may close a cycle)
+			if len(ks) >= 2 {
+				a, b := ks[(n*7+1)%len(ks)], ks[(n*5+2)%len(ks)]
+				nodes[a] = append(nodes[a], b)
+			}
+		case 'd': // drop the last edge of the first node that has one
+			for _, k := range ks {
+				if l := nodes[k]; len(l) > 0 {
+					nodes[k] = l[:len(l)-1]
+					break
+				}
+			}
+		case 'n': // a new node pointing at an old one
+			for _, nm := range uni {
+				if _, ok := nodes[nm]; !ok {
+					nodes[nm] = nil
+					if len(ks) > 0 {
+						nodes[nm] = []string{ks[0]}
+					}
+					break
+				}
+			}
+		case 'E': // the graph Reverse returned is the caller's: scribble on it
+			if last != nil {
+				for k := range last.Nodes {
+					last.Nodes[k] = append(last.Nodes[k], k)
+				}
+				last.Nodes["scribble"] = []string{"scribble"}
+			}
+		}
+		if op == 'R' || op == 'T' || op == 'V' {
+			st.Same = sameNodes(before, nodes)
+		} else {
+			st.Same = true
+		}
+		st.Cur = cur()
+		out = append(out, st)
+	}
+	return out
 }
 
 // mapOps: a second LayoutMap on the same Map, LayoutJSON, and Closure on a Map
@@ -1122,6 +1246,8 @@ func genOps(r *hx.Rng, c *Case) {
 			in.Clo = []int{}
 		}
 	}
+	gseqs := []string{"RaR", "RaV", "VaV", "RaT", "REV", "RER", "VdV", "RnRT", "TaT", "RaRaV", "VnV", "RdT"}
+	in.GSeq = gseqs[r.Intn(len(gseqs))]
 	seqs := []string{"NRL", "NLRL", "YRL", "VL", "VRL", "NRLRL", "NLL", "YRLS", "NRSL", "VLRL", "NLRLL", "YLRL"}
 	in.Seq = seqs[r.Intn(len(seqs))]
 	c.Ops = in
